@@ -1167,4 +1167,142 @@ theorem accepts_iff_optA (s : Text) : (OptA.parse s).isOk = true ↔ Doc.OptionA
 /-- 50C: a BIC and nothing else (the registry entry is `parseBic` itself) -/
 theorem accepts_iff_50C (s : Text) : (parseBic s).isOk = true ↔ Doc.Bic s := accepts_iff_bic s
 
+/-! ### Name-and-address blocks `4*35x` and the fields built on them (option D, 50K, 59, 50H, 50) -/
+
+/-- 1..4 lines of 1..35 x-characters -/
+def Doc.NameLines (ls : List Text) : Prop := 1 ≤ ls.length ∧ ls.length ≤ 4 ∧ ∀ l ∈ ls, Doc.XText 35 l
+
+theorem nameLineOk_iff (l : Text) : nameLineOk l = true ↔ Doc.XText 35 l := by
+  unfold nameLineOk
+  constructor
+  · intro h
+    simp only [Bool.and_eq_true, decide_eq_true_eq, Bool.not_eq_true', List.isEmpty_eq_false_iff] at h
+    exact xtext_of_checks 35 l h.1.1 h.1.2 h.2
+  · intro h
+    obtain ⟨h1, h2, h3⟩ := checks_of_xtext 35 l h
+    simp [h1, h2, h3]
+
+theorem nameAddr_accepts_iff (ls : List Text) : (parseNameAndAddress ls 0).isOk = true ↔ Doc.NameLines ls := by
+  unfold parseNameAndAddress Doc.NameLines
+  simp only [List.drop_zero]
+  constructor
+  · intro h
+    split at h; · cases h
+    rename_i hall
+    split at h; · cases h
+    rename_i hne
+    split at h; · cases h
+    rename_i hlen
+    simp only [Bool.not_eq_true', Bool.not_eq_false] at hall
+    refine ⟨?_, by omega, fun l hl => (nameLineOk_iff l).mp ((List.all_eq_true.mp hall) l hl)⟩
+    cases ls with
+    | nil => simp at hne
+    | cons _ _ => simp
+  · rintro ⟨h1, h2, h3⟩
+    have hall : ls.all nameLineOk = true := List.all_eq_true.mpr (fun l hl => (nameLineOk_iff l).mpr (h3 l hl))
+    have hne : ls.isEmpty = false := by cases ls with
+      | nil => simp at h1
+      | cons _ _ => rfl
+    have : ¬ ls.length > 4 := by omega
+    simp [hall, hne, this, Res.isOk]
+
+theorem nameLines_no_nl (ls : List Text) (h : Doc.NameLines ls) : ∀ l ∈ ls, ∀ c ∈ l, c ≠ '\n' :=
+  fun l hl c hc => swiftX_not_nl c ((h.2.2 l hl).2.2 c hc)
+
+/-- 52D, 54D, 55D, 56D, 57D, 58D: name-and-address lines, optionally preceded by a party-identifier line; a first line
+that starts with a slash must be a party identifier -/
+def Doc.OptionD (s : Text) : Prop :=
+  (∃ ls, s = joinNl ls ∧ Doc.NameLines ls ∧ (ls.head?.bind List.head?) ≠ some '/') ∨
+  (∃ l ls, s = joinNl (l :: ls) ∧ Doc.PartyId l ∧ Doc.NameLines ls)
+
+theorem partyId_head (l : Text) (h : Doc.PartyId l) : l.head? = some '/' := by
+  rcases h with ⟨_, rfl, _⟩ | ⟨_, _, rfl, _⟩ | ⟨_, rfl, _⟩ <;> rfl
+
+theorem accepts_iff_optD (s : Text) : (OptD.parse s).isOk = true ↔ Doc.OptionD s := by
+  constructor
+  · intro h
+    unfold OptD.parse at h
+    have hj := joinNl_splitNl s
+    split at h
+    · cases h
+    · rename_i l0 rest hsp
+      rw [hsp] at hj
+      split at h
+      · cases h
+      · cases h
+      · rename_i p hp
+        split at h
+        · rename_i ls hl
+          refine Or.inr ⟨l0, rest, hj.symm, (pid_accepts_iff l0).mp ⟨p, hp⟩, ?_⟩
+          apply (nameAddr_accepts_iff rest).mp
+          have : parseNameAndAddress (l0 :: rest) 1 = parseNameAndAddress rest 0 := by
+            unfold parseNameAndAddress; simp
+          rw [← this, hl]; rfl
+        · cases h
+        · cases h
+      · rename_i hp
+        split at h
+        · rename_i ls hl
+          refine Or.inl ⟨l0 :: rest, hj.symm, (nameAddr_accepts_iff _).mp (by rw [hl]; rfl), ?_⟩
+          simp only [List.head?_cons, Option.bind_some]
+          exact pid_none l0 hp
+        · cases h
+        · cases h
+  · intro h
+    rcases h with ⟨ls, rfl, hn, hh⟩ | ⟨l, ls, rfl, hl, hn⟩
+    · have hne : ls ≠ [] := by intro he; subst he; have := hn.1; simp at this
+      have hsp := splitNl_joinNl ls hne (nameLines_no_nl ls hn)
+      cases ls with
+      | nil => exact absurd rfl hne
+      | cons l0 rest =>
+        simp only [List.head?_cons, Option.bind_some] at hh
+        have hok := (nameAddr_accepts_iff (l0 :: rest)).mpr hn
+        unfold OptD.parse
+        rw [hsp]
+        simp only [pid_none_of_head l0 hh]
+        cases hp : parseNameAndAddress (l0 :: rest) 0 with
+        | ok v => simp [Res.isOk]
+        | err => rw [hp] at hok; cases hok
+        | panic => rw [hp] at hok; cases hok
+    · obtain ⟨p, hp⟩ := (pid_accepts_iff l).mpr hl
+      have hlnl := partyId_no_nl l hl
+      have hsp := splitNl_joinNl (l :: ls) (by simp) (by
+        intro x hx
+        rcases List.mem_cons.mp hx with rfl | hx
+        · exact hlnl
+        · exact nameLines_no_nl ls hn x hx)
+      have hok := (nameAddr_accepts_iff ls).mpr hn
+      have h1 : parseNameAndAddress (l :: ls) 1 = parseNameAndAddress ls 0 := by
+        unfold parseNameAndAddress; simp
+      unfold OptD.parse
+      rw [hsp]
+      simp only [hp, h1]
+      cases hpn : parseNameAndAddress ls 0 with
+      | ok v => simp [Res.isOk]
+      | err => rw [hpn] at hok; cases hok
+      | panic => rw [hpn] at hok; cases hok
+
+/-- 50 (no option): exactly `4*35x` -/
+theorem accepts_iff_50 (s : Text) : (F50NoOption.parse s).isOk = true ↔ ∃ ls, s = joinNl ls ∧ Doc.NameLines ls := by
+  unfold F50NoOption.parse
+  simp only
+  constructor
+  · intro h
+    split at h; · cases h
+    rename_i hlen
+    split at h
+    · rename_i hall
+      refine ⟨splitNl s, (joinNl_splitNl s).symm, ?_, by omega, fun l hl => (nameLineOk_iff l).mp ((List.all_eq_true.mp hall) l hl)⟩
+      have := splitNl_ne_nil s
+      cases hs : splitNl s with
+      | nil => exact absurd hs this
+      | cons _ _ => simp
+    · cases h
+  · rintro ⟨ls, rfl, hn⟩
+    have hne : ls ≠ [] := by intro he; subst he; have := hn.1; simp at this
+    rw [splitNl_joinNl ls hne (nameLines_no_nl ls hn)]
+    have hall : ls.all nameLineOk = true := List.all_eq_true.mpr (fun l hl => (nameLineOk_iff l).mpr (hn.2.2 l hl))
+    have : ¬ ls.length > 4 := by have := hn.2.1; omega
+    simp [this, hall, Res.isOk]
+
 end SwiftMT.Props.C05
